@@ -123,7 +123,7 @@ Proof. vm_compute. reflexivity. Qed.
 (* all the guards that turn untrusted-input panics into errors are present in the source *)
 Definition switches_all_fixed : bool :=
   g_map_idc_bail && g_interp_bail && g_write_interp_bail && g_mixed_method_bail &&
-  g_blocks_alloc_clamped && g_block_len_checked_parse && g_block_len_checked_write &&
+  g_blocks_alloc_clamped && g_block_len_checked_parse && g_block_len_checked_write && g_remaining_guard &&
   match g_pivots_bound with Some k => k <=? 7 | None => false end &&
   match g_rpu_end_min with Some k => 6 <=? k | None => false end.
 Lemma source_switches_fixed : switches_all_fixed = true.
